@@ -1,5 +1,12 @@
 (* Async/AbortFlowProofs.v — proofs of Async/AbortFlowTargets.v (the abort flow of C11 end to end):
-   abort_close, handler_abort_source, abort_iteration. *)
+   abort_close, handler_abort_source, abort_iteration — all three at the strength of the statements, no added hypothesis.
+   Remarks:
+   - the hypothesis [rlock r = false] is used by neither abort_close nor handler_abort_source: close never looks at the
+     lock, and the awaited read that reports the abort went through a completed reply flush, which releases it
+     (await_input_err_unlocked) — so a read polled once and dropped before (op 11, known finding F6) does not matter;
+   - [held rp = raw_bytes (rsp r)] holds in every case: set_stream, the reply flush and the repeated parse at the abort
+     header leave the unparsed input, the buffer size and the request untouched (same_pos / frozen);
+   - two executable instances at the end (gate open / gate closed with a reply pending at the abort). *)
 From Coq Require Import ZArith ZifyBool ZifyNat ZifyN Lia List.
 From FV Require Import Base.Bytes Base.BytesLemmas Gen.Generated Codec.Header Codec.Bodies Codec.ProtoProofs
   Parser.ReqModel Parser.StreamModel Parser.AbsStream Parser.StreamRefine Parser.StreamSpec Parser.StreamInv
@@ -216,7 +223,7 @@ Qed.
 
 Theorem abort_close : abort_close_stmt.
 Proof.
-  intros maxc r disc code app ps w Hr He Hab Hlk Wok Hnf Hex.
+  intros maxc r disc code app ps w Hr He Hab _ Wok Hnf Hex.
   destruct (do_writeable_at_abort maxc r w Hr He Hab Wok Hnf)
     as (e & r1 & w1 & EDW & He' & Hab1 & I1 & Wr1 & SP & Hnf1 & Rem1 & Rs1 & fl & L1 & O1).
   assert (EC : do_close maxc r disc code w = close_tail maxc r1 disc code w1).
@@ -381,3 +388,156 @@ Proof.
   destruct (run_handler_abort maxc f script r w r1 w1 Hs (conj Hr (conj Wok Hnf)) E) as ((A & B & C) & D & E' & F).
   tauto.
 Qed.
+
+(* ---------------------------------------------------------------------------------------------- *)
+(* Part 3: one iteration of Token::run for an aborted request                                      *)
+(* ---------------------------------------------------------------------------------------------- *)
+Theorem abort_iteration : abort_iteration_stmt.
+Proof.
+  intros norm maxc fuel p scripts served w s0 w' Hst EPR. cbv zeta. intros r1 w2 Hs Hr0 Wok1 Hnf1 ERH.
+  destruct (handler_abort_source maxc _ _ _ _ r1 w2 Hs Hr0 Wok1 Hnf1 eq_refl ERH) as (Hr1 & Wok2 & Hnf2 & Hlk1 & He1 & Hab1).
+  pose proof (run_loop_iteration norm maxc fuel p scripts served w Hst) as RL. rewrite EPR in RL. cbv zeta in RL.
+  rewrite ERH in RL. rewrite Hab1, N.eqb_refl in RL. cbn [andb] in RL.
+  pose proof (abort_close maxc r1 EXIT_Complete EXIT_ABORT_CODE EXIT_ABORT_CODE PS_RequestComplete w2 Hr1 He1 Hab1 Hlk1 Wok2 Hnf2
+                (proj1 (exit_status_map EXIT_ABORT_CODE))) as AC.
+  destruct (do_close maxc r1 EXIT_Complete EXIT_ABORT_CODE w2) as [[rp|k] w3|o w3].
+  - destruct AC as (K & L & R1 & R2 & H1 & H2 & H3). exists w3. split; [exact L|]. split; [exact R1|]. left.
+    split; [exact K|]. exists rp. split; [exact H1|]. split; [exact H2|]. split; [exact H3|exact RL].
+  - destruct AC as (_ & NK & L & R1 & R2). exists w3. split; [exact L|]. split; [exact R1|]. right. split; [exact NK|exact RL].
+  - contradiction.
+Qed.
+
+(* ---------------------------------------------------------------------------------------------- *)
+(* Non-vacuity: a concrete aborted request.  A Responder request (id 7, KeepConn); the client sends Stdin "1 2 3",
+   a GetValues record, AbortRequest (with padding), and the Stdin terminator; reads and writes are answered in pieces
+   with Pending in between.  The handler reads with `?` three times and ends with Err(ConnectionAborted).            *)
+(* ---------------------------------------------------------------------------------------------- *)
+From FV Require Import Parser.ReqWire Parser.ReqTargets.
+
+Module AbortExample.
+Definition rq : req := mkReq 7 ROLE_Responder 1 [].
+Definition gv : rcd := mkRcd RT_GetValues 0 [] [].
+Definition wire := enc_rcds [mkRcd RT_Stdin 7 [1;2;3] [0]; gv; mkRcd RT_AbortRequest 7 [] [9;9]; mkRcd RT_Stdin 7 [] []].
+Definition rp := mkParser 128 (take 10 wire) (Done rq).
+Definition sp0 := match into_stream_parser rp with inl p => p | inr _ => new_sparser 0 rq end.
+Definition r0 := mkR sp0 true false false.
+Definition w0 : world := mkW [0; 7; 0; 100] [0; 3; 0; 100; 0; 5; 100; 100; 100] [(0,0,drop 10 wire)] [] 0 1 0 false false [].
+Definition script := [10; 2; 10; 5; 10; 5; 8; 0; 0].
+Definition hr := run_handler 10 20 script r0 w0.
+Definition r1 := match hr with Ok (_, r) _ => r | Halt _ _ => r0 end.
+Definition w1 := match hr with Ok _ w => w | Halt _ w => w end.
+
+Lemma hr_eq : run_handler 10 20 script r0 w0 = Ok (inr EK_Aborted, r1) w1.
+Proof. vm_compute. reflexivity. Qed.
+
+Lemma script_no_fab : no_fab script.
+Proof. unfold script. repeat constructor. Qed.
+
+Lemma rp_ok : parser_ok rp.
+Proof.
+  unfold parser_ok. split; [exact I|]. split; [exact I|]. split; [apply bytes_okb_ok; vm_compute; reflexivity|].
+  split; [vm_compute; discriminate|]. split; [vm_compute; discriminate|vm_compute; reflexivity].
+Qed.
+
+Lemma r0_rinv : rinv r0.
+Proof.
+  destruct (into_stream_parser_rgood rp rq rp_ok eq_refl) as (p0 & E0 & _ & _ & _ & _ & _ & G).
+  assert (Ep : p0 = sp0) by (unfold sp0; rewrite E0; reflexivity). subst p0.
+  split; [exact G|]. apply (into_stream_parser_pinv rp rq sp0 eq_refl); [vm_compute; discriminate|apply rp_ok|exact E0].
+Qed.
+
+Lemma w0_ok : world_ok w0.
+Proof. constructor; [apply bytes_okb_ok; vm_compute; reflexivity|constructor]. Qed.
+
+Lemma w0_nf : no_fault (wscript w0).
+Proof. unfold no_fault, w0. cbn [wscript]. repeat (constructor; [repeat split; vm_compute; discriminate|]). constructor. Qed.
+
+Example abort_close_hyps :
+  rinv r1 /\ err_at (abs (rsp r1)) EAbortRequest /\ raborted r1 = true /\ rlock r1 = false /\
+  world_ok w1 /\ no_fault (wscript w1) /\ exit_to_end EXIT_Complete EXIT_ABORT_CODE = Some (EXIT_ABORT_CODE, PS_RequestComplete).
+Proof.
+  destruct (handler_abort_source 10 20%nat script r0 w0 r1 w1 script_no_fab r0_rinv w0_ok w0_nf eq_refl hr_eq)
+    as (H1 & H2 & H3 & H4 & H5 & H6).
+  exact (conj H1 (conj H5 (conj H6 (conj H4 (conj H2 (conj H3 (proj1 (exit_status_map EXIT_ABORT_CODE)))))))).
+Qed.
+
+Example abort_close_instance :
+  match do_close 10 r1 EXIT_Complete EXIT_ABORT_CODE w1 with
+  | Ok (inl rp') w' =>
+      wlog w' = wlog w1 ++ [1;6;0;7;0;0;0;0; 1;7;0;7;0;0;0;0; 1;3;0;7;0;8;0;0; 65;66;82;84; 0; 0;0;0] /\
+      held rp' = [1;2;0;7;0;0;2;0;9;9; 1;5;0;7;0;0;0;0] /\ cap rp' = 128 /\ st rp' = Header
+  | _ => False
+  end.
+Proof. vm_compute. (split; [reflexivity|split; [reflexivity|split; reflexivity]]). Qed.
+End AbortExample.
+
+
+(* A second instance, for the other branch of writeable(): a Filter request (two input streams: the output gate is still
+   closed when the abort arrives) whose GetValues reply is still pending in the parser at the abort.  close selects the
+   last stream, flushes the reply in pieces (Pending, 3 bytes, Pending, the rest), meets the abort again, and writes
+   ONE EndRequest and no stream terminators. *)
+Module AbortExample2.
+Definition rq : req := mkReq 7 ROLE_Filter 1 [].
+Definition gv : rcd := mkRcd RT_GetValues 0 ([14; 0] ++ [70;67;71;73;95;77;65;88;95;67;79;78;78;83]) [].   (* FCGI_MAX_CONNS *)
+Definition wire := enc_rcds [mkRcd RT_Stdin 7 [1;2;3] [0]; gv; mkRcd RT_AbortRequest 7 [] [9;9]; mkRcd RT_Stdin 7 [] []].
+Definition rp := mkParser 128 (take 10 wire) (Done rq).
+Definition sp0 := match into_stream_parser rp with inl p => p | inr _ => new_sparser 0 rq end.
+Definition r0 := mkR sp0 false false false.
+Definition w0 : world := mkW [0; 7; 0; 100] [0; 3; 0; 100; 0; 5; 100; 100; 100] [(0,0,drop 10 wire)] [] 0 1 0 false false [].
+Definition script := [10; 2; 10; 5; 10; 5; 8; 0; 0].
+Definition hr := run_handler 10 20 script r0 w0.
+Definition r1 := match hr with Ok (_, r) _ => r | Halt _ _ => r0 end.
+Definition w1 := match hr with Ok _ w => w | Halt _ w => w end.
+
+Lemma hr_eq : run_handler 10 20 script r0 w0 = Ok (inr EK_Aborted, r1) w1.
+Proof. vm_compute. reflexivity. Qed.
+
+Lemma script_no_fab : no_fab script.
+Proof. unfold script. repeat constructor. Qed.
+
+Lemma rp_ok : parser_ok rp.
+Proof.
+  unfold parser_ok. split; [exact I|]. split; [exact I|]. split; [apply bytes_okb_ok; vm_compute; reflexivity|].
+  split; [vm_compute; discriminate|]. split; [vm_compute; discriminate|vm_compute; reflexivity].
+Qed.
+
+Lemma r0_rinv : rinv r0.
+Proof.
+  destruct (into_stream_parser_rgood rp rq rp_ok eq_refl) as (p0 & E0 & _ & _ & _ & _ & _ & G).
+  assert (Ep : p0 = sp0) by (unfold sp0; rewrite E0; reflexivity). subst p0.
+  split; [exact G|]. apply (into_stream_parser_pinv rp rq sp0 eq_refl); [vm_compute; discriminate|apply rp_ok|exact E0].
+Qed.
+
+Lemma w0_ok : world_ok w0.
+Proof. constructor; [apply bytes_okb_ok; vm_compute; reflexivity|constructor]. Qed.
+
+Lemma w0_nf : no_fault (wscript w0).
+Proof. unfold no_fault, w0. cbn [wscript]. repeat (constructor; [repeat split; vm_compute; discriminate|]). constructor. Qed.
+
+Example abort_close_hyps :
+  rinv r1 /\ err_at (abs (rsp r1)) EAbortRequest /\ raborted r1 = true /\ rlock r1 = false /\
+  world_ok w1 /\ no_fault (wscript w1) /\ exit_to_end EXIT_Complete EXIT_ABORT_CODE = Some (EXIT_ABORT_CODE, PS_RequestComplete) /\
+  rwriteable r1 = false /\ output_buffer (rsp r1) <> [].
+Proof.
+  destruct (handler_abort_source 10 20%nat script r0 w0 r1 w1 script_no_fab r0_rinv w0_ok w0_nf eq_refl hr_eq)
+    as (H1 & H2 & H3 & H4 & H5 & H6).
+  refine (conj H1 (conj H5 (conj H6 (conj H4 (conj H2 (conj H3 (conj (proj1 (exit_status_map EXIT_ABORT_CODE)) (conj _ _)))))))).
+  - vm_compute. reflexivity.
+  - vm_compute. discriminate.
+Qed.
+
+Example abort_close_instance :
+  match do_close 10 r1 EXIT_Complete EXIT_ABORT_CODE w1 with
+  | Ok (inl rp') w' =>
+      wlog w' = wlog w1 ++ [1;10;0;0;0;18;6;0; 14;2;70;67;71;73;95;77;65;88;95;67;79;78;78;83;49;48; 0;0;0;0;0;0] ++
+                           [1;3;0;7;0;8;0;0; 65;66;82;84; 0; 0;0;0] /\
+      held rp' = [1;2;0;7;0;0;2;0;9;9; 1;5;0;7;0;0;0;0] /\ cap rp' = 128 /\ st rp' = Header /\ wscript w' = [100; 100]
+  | _ => False
+  end.
+Proof. vm_compute. split; [reflexivity|split; [reflexivity|split; [reflexivity|split; reflexivity]]]. Qed.
+End AbortExample2.
+
+
+Print Assumptions abort_close.
+Print Assumptions handler_abort_source.
+Print Assumptions abort_iteration.
